@@ -1257,6 +1257,24 @@ def oracle(spec):
     _roundtrip_checks(e, fails)
     if fails:
         return fails
+    # a SHALLOW COPY of one of the extension's definitions is added to a second extension (the copy shares its signature
+    # object with the original): the first extension still holds definitions that name it, and still round-trips
+    # (seeded change C10-16: the previous owner's name stripped from the shared signature)
+    try:
+        from hugr import ext as _ext
+
+        e4 = build(spec)
+        owned = [od for od in e4.operations.values() if od.signature.poly_func is not None]
+        if owned:
+            other = _ext.Extension("verif.second.home", _ext.Version(0, 1, 0))
+            other.add_op_def(copy.copy(owned[0]))
+            _check_owned(e4, "Extension.add_op_def (a copy added to a second extension)", fails)
+            if not fails:
+                _roundtrip_checks(e4, fails, "after-a-copy-was-added-elsewhere:")
+            if fails:
+                return fails
+    except Exception:  # noqa: BLE001
+        pass
     # the same program with the extension serialised after every step
     try:
         e3 = build(spec, serialise_between=True)
